@@ -376,9 +376,15 @@ def run(ctx):
     bounds = ctx.pick((3, 2, 2), (4, 2, 3))
     qdepth = ctx.pick(1, 2)
     plen = ctx.pick(4, 5)
-    ctx.rec.notes["bounds"] = {"annotations(n,g,d)": bounds, "pair_law_operand_depth": qdepth, "parser_token_length": plen,
+    ctx.rec.notes["bounds"] = {"annotations(n,g,d)": bounds, "pair_law_operand_depth": qdepth if not ctx.thorough else {"(4,2,3)": 1, "(3,2,2)": 2}, "parser_token_length": plen,
                                "atoms": ATOMS, "pool": POOL}
-    ctx.parallel(worker_laws, bounds, qdepth, ctx.seed)
+    if ctx.thorough:
+        # the deep annotation bound with depth-1 operands, and the quick annotation bound with depth-2 operands
+        # (both at once is ~2e9 searches)
+        ctx.parallel(worker_laws, bounds, 1, ctx.seed)
+        ctx.parallel(worker_laws, (3, 2, 2), 2, ctx.seed)
+    else:
+        ctx.parallel(worker_laws, bounds, qdepth, ctx.seed)
     ctx.parallel(worker_parser, plen, ctx.seed)
     service_check(ctx)
     ctx.rec.counts["states"] = len(ctx.rec.states)
